@@ -55,6 +55,20 @@ def run(ctx):
             nsites.add((ev[4], ev[1], ev[2]))
             if verdict == "reported":
                 reported.setdefault(PN.describe(ev), (ev, reason))
+    # slice bounds and copy lengths: relational obligations (a tainted bound must be tied to the length it indexes)
+    nslice = 0
+    for o in outs:
+        for what, x, y, strict, site, upto in EM.slice_obligations(o.path):
+            nslice += 1
+            nsites.add((site, "Slice", what))
+            if EM.implies_le(o.path, x, y, upto, strict):
+                continue
+            lv = [l for l in H.leaves(EM.norm_len(x)) | H.leaves(EM.norm_len(y)) if EM.header_leaf(l)]
+            if lv:
+                desc = "%s: %s %s %s is not established on the path" % (what, A.show(EM.norm_len(x))[:50], "<" if strict else "<=",
+                                                                        A.show(EM.norm_len(y))[:50])
+                reported.setdefault(desc, (("assert", "Slice", what, {}, site), "no comparison ties the bound to the length"))
+    ck.cov["slice_obligations"] = nslice
     # round_up_to_page_size may be a separate function: its assert is on its parameter; taint flows through inlining
     if reported:
         for desc, (ev, reason) in sorted(reported.items()):
@@ -68,10 +82,10 @@ def run(ctx):
     nalloc = 0
     for o in outs:
         for i, e in enumerate(o.path.events):
-            if e[0] != "init_zero":
+            if e[0] not in ("init_zero", "vec_alloc"):
                 continue
             nalloc += 1
-            size = e[2]
+            size = e[2] if e[0] == "init_zero" else e[1]
             lv = [x for x in H.leaves(size) if EM.header_leaf(x)]
             for x in lv:
                 # a dominating order comparison that bounds the field (against the input length or a constant)
